@@ -82,7 +82,7 @@ def handle (j : J) : J :=
     | some (data, errs) =>
       let sites := Spec.NullSites.sitesFields root
       .obj [("exec", .obj [("data", data), ("errors", .arr (errs.map errToJson))]),
-            ("bijection", .bool (errs.map Err.path? == sites.map some && sites.all fun p => dataAt data p == some .null))]
+            ("bijection", .bool (errs.map Err.path? == sites.map some && sites.all fun p => (dataAt data p).map J.isNull == some true))]
   | "lines" =>
     let text := j.textD "text"
     .obj [("lines", .arr ((Spec.Response.splitLines text).map fun l => J.ofNat l.length)),
